@@ -24,7 +24,7 @@ CFG = {
     "technique": "Coq proof (verified edge-pairing checker, involution on edge slots, exact polynomial identities) + "
                  "vm_compute correspondence check + float oracle",
     "design_ref": "DESIGN.md §4 C18",
-    "n_quick": 60, "n_thorough": 600,
+    "n_quick": 60, "n_thorough": 400,
     "rule": "(rows, cols) in 2..24 x 3..24 for UVSphere, UVSphereUnwelded, Hemisphere.UV: thorough = every pair with full "
             "index + class lists; quick = every pair <= 12x12 with full lists plus one residue class of rows+cols mod 4 "
             "(chosen by the seed) and the corners of the larger pairs as two 63-bit fingerprints of both lists; every cylinder side count "
